@@ -30,6 +30,9 @@ def run(ctx):
             rec, lin = sccs_and_linearity(shape)
             if not rec:
                 continue
+            if ctx.rng.random() < 0.4:
+                shape = add_dead_rule(ctx.rng, shape)
+                rec, lin = sccs_and_linearity(shape)
         else:
             from .c01 import gen_shape as g1
             shape = g1(ctx.rng, dom_sizes=(1, 2, 3, 2))
@@ -37,6 +40,24 @@ def run(ctx):
             lin = True
         if run_case(ctx, shape, recursive, lin):
             k += 1
+
+
+def add_dead_rule(rng, shape):
+    """add a nonterminal D of X's SCC that has no terminating derivation (D -> D X) and a rule X -> D listed
+    BEFORE X's other rules: that rule's sum-product is structurally absent (None), not a zero tensor"""
+    import copy
+    sh = copy.deepcopy(shape)
+    X = rng.randrange(len(sh['nts']))
+    ty = sh['nts'][X]
+    D = len(sh['nts'])
+    sh['nts'].append(list(ty))
+    k = len(ty)
+    dead = dict(lhs=X, nodes=list(ty), ext=list(range(k)), edges=[('n', D, list(range(k)))])
+    loop = dict(lhs=D, nodes=list(ty) + list(ty), ext=list(range(k)), edges=[('n', D, list(range(k))), ('n', X, list(range(k, 2 * k)))])
+    first = next((i for i, r in enumerate(sh['rules']) if r['lhs'] == X), len(sh['rules']))
+    sh['rules'].insert(first, dead)
+    sh['rules'].append(loop)
+    return sh
 
 
 def run_case(ctx, shape, recursive, linear):
@@ -53,8 +74,11 @@ def run_case(ctx, shape, recursive, linear):
         cells = t.list(lambda: (t.ext(), t.ext()))
         model[e] = [c[1] for c in cells]
         zval = [c[0] for c in cells]
-    if zval is None or any(isinstance(z, float) for z in zval) or max([float(z) for z in zval] + [0]) > 50:
-        return False     # infinite / divergent: outside the property's precondition
+    try:
+        if zval is None or any(isinstance(z, float) for z in zval) or max([float(z) for z in zval] + [0]) > 50:
+            return False     # infinite / divergent: outside the property's precondition
+    except OverflowError:
+        return False
     if recursive:
         # convergence check of the model itself: one more batch of steps must not move the derivative
         rep2 = ctx.driver.ask(f'C03.dual {gen.enc_shape(shape)} {enc_list(entries, lambda e: f"{e[0]} {e[1]}")} {nsteps // 2} {bits}')
@@ -70,7 +94,10 @@ def run_case(ctx, shape, recursive, linear):
     ctx.case(case, repr(shape) if nontriv else None, sample_every=30)
     ctx.count('recursive' if recursive else 'nonrecursive')
     ncell = len(zval)
-    cot = [ctx.rng.choice([1.0, 2.0, 0.5, 3.0]) for _ in range(ncell)]
+    cot = [ctx.rng.choice([1.0, 2.0, 0.5, 3.0, -1.0, -2.0, 0.0]) for _ in range(ncell)]
+    if ncell >= 2 and ctx.rng.random() < 0.3:
+        cot = [1.0, -1.0] + [0.0] * (ncell - 2)        # a cotangent that sums to zero without being zero
+        ctx.rng.shuffle(cot)
     methods = ['fixed-point', 'newton'] + (['linear'] if linear else [])
     for name in ('real', 'log'):
         for method in methods:
